@@ -159,13 +159,17 @@ def binding_selftest(chk, trace_path):
         if e["ev"] == "Handle" and len(muts) == 2:
             e2 = dict(e); e2["mt"] = (e2["mt"] + 1) % 5
             muts.append(("Handle other type", lines[:i] + [json.dumps(e2)] + lines[i + 1:]))
+    import re
     n = 0
     for name, ls in muts:
         p = os.path.join(os.path.dirname(trace_path), "mut.ndjson")
         with open(p, "w") as f:
             f.write("\n".join(ls[:4000]) + "\n")
         r = vlib.run_tlc("net/EngineTrace", cfg="EngineTrace.cfg", workers=1, timeout=600, env={"VERIF_TRACE": p})
-        if r.ok:
+        m = re.search(r'^<<"REJECTS", "(.*)">>\s*$', r.out, re.M)
+        if not r.ok or not m:
+            raise vlib.MachineryError("binding self-test: EngineTrace failed on the corrupted trace (%s)" % name)
+        if json.loads(json.loads('"' + m.group(1) + '"')) == []:
             raise vlib.MachineryError("binding self-test: corrupted trace (%s) was accepted" % name)
         n += 1
     chk.extra["binding_selftest_rejected"] = n
